@@ -2,6 +2,7 @@ SPECIFICATION GenSpec
 CONSTANTS
   Reqs <- Reqs2
   Dups = {3}
+  FailIdx = {}
   RegisterFirst = TRUE
 INVARIANTS NoSpurious MatchOnce NoLoss Emit
 CHECK_DEADLOCK FALSE
